@@ -36,6 +36,7 @@ type facts struct {
 	JSONTags     [][3]string         `json:"json_tags"`     // type, field, tag
 	InitCalls    [][3]string         `json:"init_calls"`    // file, func, method called on the receiver
 	LockUse      [][3]string         `json:"lock_use"`      // file, func, Lock|RLock|none
+	SQLNid       [][3]string         `json:"sql_nid"`       // file, func, verdict for every raw SQL literal on keto_relation_tuples
 	Misc         map[string]string   `json:"misc"`
 	files        map[string]*ast.File
 	fset         *token.FileSet
@@ -447,6 +448,46 @@ func (f *facts) lockUse(repo, rel string) {
 	}
 }
 
+// sqlNid judges every raw SQL string literal that touches keto_relation_tuples: every
+// occurrence of the table (FROM / INTO / DELETE FROM / subquery) must be restricted
+// to the network: `nid = ?`, `current.nid = ?`, `nid = current.nid`, or - for INSERT -
+// the nid column being written.
+func (f *facts) sqlNid(repo, rel string) {
+	af := f.parse(repo, rel)
+	for _, d := range af.Decls {
+		fd, ok := d.(*ast.FuncDecl)
+		if !ok || fd.Body == nil {
+			continue
+		}
+		name := funcName(fd)
+		ast.Inspect(fd.Body, func(n ast.Node) bool {
+			lit, ok := n.(*ast.BasicLit)
+			if !ok || lit.Kind != token.STRING {
+				return true
+			}
+			s, err := strconv.Unquote(lit.Value)
+			if err != nil {
+				return true
+			}
+			up := strings.ToUpper(strings.Join(strings.Fields(s), " "))
+			mentions := strings.Count(up, "KETO_RELATION_TUPLES") + strings.Count(up, "FROM %S") + strings.Count(up, "INTO %S")
+			if mentions == 0 || !strings.Contains(up, " ") {
+				return true
+			}
+			preds := strings.Count(up, "NID = ?") + strings.Count(up, "NID = CURRENT.NID")
+			verdict := "missing"
+			switch {
+			case strings.Contains(up, "INSERT INTO") && strings.Contains(up, "NID"):
+				verdict = "insert-writes-nid"
+			case preds >= mentions:
+				verdict = fmt.Sprintf("nid-predicates:%d/tables:%d", preds, mentions)
+			}
+			f.SQLNid = append(f.SQLNid, [3]string{rel, name, verdict})
+			return true
+		})
+	}
+}
+
 func leanStr(s string) string { return strconv.Quote(s) }
 
 func main() {
@@ -490,6 +531,9 @@ func main() {
 	for _, rel := range []string{"internal/persistence/sql/relationtuples.go", "internal/persistence/sql/traverser.go",
 		"internal/persistence/sql/uuid_mapping.go", "internal/persistence/sql/persister.go"} {
 		f.sqlStrings(*repo, rel)
+	}
+	for _, rel := range []string{"internal/persistence/sql/relationtuples.go", "internal/persistence/sql/traverser.go"} {
+		f.sqlNid(*repo, rel)
 	}
 	f.lazyInit(*repo, "internal/driver/registry_default.go")
 	f.lazyInit(*repo, "internal/driver/config/provider.go")
@@ -552,6 +596,7 @@ func main() {
 	table3("jsonTags", f.JSONTags)
 	table3("initCalls", f.InitCalls)
 	table3("lockUse", f.LockUse)
+	table3("sqlNid", f.SQLNid)
 	b.WriteString("\nend Keto.Facts\n")
 	if *out != "" {
 		if err := os.WriteFile(*out, []byte(b.String()), 0o644); err != nil {
